@@ -128,12 +128,26 @@ def storeA (a : Acct) : Except Err Acct := if serPanics a then .error .panicNilL
 
 /-! ### orders and events -/
 
+/-- One order sub-bucket as `fetchOrderTX` + the callbacks of `GetOrder`/`updateOrder`/`copyOrder` read it.
+Go keeps four keys per order: `order` (fixed-size encoding: state, units, unfilled, type, …),
+`order-min-units-match`, `order-tier` (bids only) and `order-tlv` (channel type, allowed/blocked node ids, auction type,
+public flag, bid: self channel balance, sidecar ticket, unannounced/zero-conf flags, ask: announcement /
+confirmation constraints).  `updateOrder` decodes all of them, applies the modifiers and REWRITES all of them into
+`dst`; `copyOrder` decodes and rewrites all of them into `dst` (`Gen.C06.updateOrderStores`, `copyOrderStores`,
+`…Decodes`; theorem `facts_order_keys`).  The record therefore moves as a whole; `extras` is an opaque tag for the
+contents of the TLV stream. -/
 structure Ord where
   state : Nat
   unfilled : Nat   -- Kit.UnitsUnfulfilled
   units : Nat      -- Kit.Units
-  minMatch : Nat   -- Kit.MinUnitsMatch
+  minMatch : Nat   -- Kit.MinUnitsMatch       (key `order-min-units-match`)
+  isBid : Bool := false   -- order type       (in the fixed-size encoding)
+  tier : Nat := 0         -- Bid.MinNodeTier   (key `order-tier`, bids only)
+  extras : Nat := 0       -- tag of the TLV-encoded optional terms (key `order-tlv`)
 deriving DecidableEq, Repr, Inhabited
+
+/-- the terms no modifier can change -/
+def Ord.fixed (o : Ord) : Nat × Nat × Bool × Nat × Nat := (o.units, o.minMatch, o.isBid, o.tier, o.extras)
 
 /-- `order.Modifier` constructors (`order/interfaces.go`), see `Gen.C06.orderModifierCtors` -/
 inductive OMod where
